@@ -170,9 +170,12 @@ def engine_check(ctx, modules, profiles, oracle_props, what, assumptions, real_p
     if ctx.tier == "thorough" and not ctx.tie_broken:
         leanchecker(ctx, modules)
     known_open, _fixed = load_known_findings()
-    # findings listed for this property first; a check that also evaluates the oracle of related properties
-    # (e.g. C12 looks at restart invisibility and counts) attributes their violations to their listed findings
-    known_for_prop = {k["quirk"]: k for k in known_open if k.get("property") in oracle_props and "quirk" in k}
+    # Decision rule (DESIGN.md 2.6): an oracle violation on a program on which the implementation and the model agree and on
+    # which the trigger of a listed open finding fired is produced by that finding (the model reproduces the defect; the
+    # property theorems exclude exactly the trigger regions). The finding may be listed under a related property (the same
+    # defect breaks several properties); the entry for this property is preferred.
+    known_for_prop = {k["quirk"]: k for k in known_open if "quirk" in k}
+    known_for_prop.update({k["quirk"]: k for k in known_open if k.get("property") in oracle_props and "quirk" in k})
     known_for_prop.update({k["quirk"]: k for k in known_open if k.get("property") == ctx.prop and "quirk" in k})
     want = set(oracle_props) | {"ANY"}
     results = []
@@ -464,3 +467,57 @@ def check_c12(ctx):
                  "non-trivial = distinct program that rotated a block, reopened or had a rejected operation",
                  ENGINE_ASSUME + ["the reclaimer's 1000-tick period is replaced by a synchronous pass (hook H3: capture_deletions/run_reclaimer); its timing is not explored",
                                   "production geometry (100 blocks per 1 GiB file) is covered by the same model with the generated constants, not by runs of this check"])
+
+
+CRASH_ASSUME = ENGINE_ASSUME[:1] + [
+    "process-crash model: a completed syscall persists (tmpfs data directory; the child process is terminated by _exit(78) at the armed I/O event)",
+    "crash points are the instrumented I/O events of hook H1 (entry writes, io_uring submission/completions, header zeroing, index/marker tmp write and rename, "
+    "file creation); a kill between two instrumented events is equivalent to a kill at the later one; torn single writes are not produced",
+]
+
+
+def check_c07(ctx):
+    mods = ["WalrusVerif.Props.C07"]
+    if ctx.replay:
+        do_replay(ctx, mods, ["C07", "C06", "C15"])
+    engine_check(ctx, mods,
+                 [("crashw", 350, 6000), ("crashr", 120, 2000)],
+                 ["C07", "C06", "C15"],
+                 "histories in which 18% of the appends/batches are executed with an armed crash point: the child process is terminated (_exit) immediately before "
+                 "the n-th entry write of the operation (n = 0..4; sequential path: Block::write call n; io_uring path: while the completion of entry n is examined) "
+                 "or before the io_uring submission; then a new process reopens the directory, queries the counts and the history continues (more appends, reads, "
+                 "further crashes, clean restarts) down to a full drain; both backends, StrictlyAtOnce (so that the consumer position is exact and the recovered prefix of the interrupted operation is determined by the count); plus the read-crash profile. Oracle: every "
+                 "acknowledged append is delivered in order and byte-identical, followed by at most a prefix of the operation in flight; open succeeds; "
+                 "non-trivial = distinct program that rotated a block, reopened or had a rejected operation",
+                 CRASH_ASSUME)
+
+
+def check_c08(ctx):
+    mods = ["WalrusVerif.Props.C08"]
+    if ctx.replay:
+        do_replay(ctx, mods, ["C08"])
+    engine_check(ctx, mods,
+                 [("crashw", 450, 8000)],
+                 ["C08"],
+                 "the crash-inside-a-write histories of C07 (70% of the armed operations are batches of 1-6 entries steered to the remaining space of the block, so "
+                 "batches spanning one and two blocks are interrupted at every entry position, on the sequential and on the io_uring path); oracle: at the first "
+                 "count after the reopen the number of recovered entries of the interrupted batch is 0 or all of them - a strict non-empty prefix is the listed "
+                 "finding batchNotCrashAtomic (sequential path), anything that is not a prefix is reported under C07; "
+                 "non-trivial = distinct program that rotated a block, reopened or had a rejected operation",
+                 CRASH_ASSUME)
+
+
+def check_c09(ctx):
+    mods = ["WalrusVerif.Props.C09"]
+    if ctx.replay:
+        do_replay(ctx, mods, ["C09", "C06", "C15"])
+    engine_check(ctx, mods,
+                 [("crashr", 400, 6000), ("crashw", 100, 2000)],
+                 ["C09", "C06", "C15"],
+                 "histories in which 22% of the consuming reads (read_next and batch reads, sealed and tail positions, first entry into a tail block included) are "
+                 "executed with an armed crash point: the child process is terminated immediately before the n-th index persist of the read (tmp write or rename, "
+                 "n = 0..2); then a new process reopens the directory and the history continues down to a full drain; StrictlyAtOnce (60%) and AtLeastOnce{1..8}. "
+                 "Oracle: StrictlyAtOnce - the position after the restart is the one before or after the read in flight, every other returned read stays consumed, "
+                 "nothing later is skipped; AtLeastOnce - nothing is skipped (the redelivery bound persist_every is not checked); "
+                 "non-trivial = distinct program that rotated a block, reopened or had a rejected operation",
+                 CRASH_ASSUME)
